@@ -80,12 +80,23 @@ func (to *TargetOptions) IsHealthCheckRequest(r *http.Request) bool {
 }
 
 func (to *TargetOptions) canonicalizeLogHeaders() {
-	for i, header := range to.LogRequestHeaders {
-		to.LogRequestHeaders[i] = http.CanonicalHeaderKey(header)
+	// The lists are shared with the service's options (and through them with
+	// every other target, and with whoever is saving state or logging a request),
+	// so canonicalize into fresh slices rather than in place.
+	to.LogRequestHeaders = canonicalHeaderKeys(to.LogRequestHeaders)
+	to.LogResponseHeaders = canonicalHeaderKeys(to.LogResponseHeaders)
+}
+
+func canonicalHeaderKeys(headers []string) []string {
+	if headers == nil {
+		return nil
 	}
-	for i, header := range to.LogResponseHeaders {
-		to.LogResponseHeaders[i] = http.CanonicalHeaderKey(header)
+
+	canonical := make([]string, len(headers))
+	for i, header := range headers {
+		canonical[i] = http.CanonicalHeaderKey(header)
 	}
+	return canonical
 }
 
 type Target struct {
